@@ -50,6 +50,7 @@ UnionWhy(files, u) ==
 
 (* ---- enums: member <-> value conversion is the identity on the wire *)
 NoDup(s) == \A i, j \in 1..Len(s) : i # j => s[i] # s[j]
+Count(s, v) == Cardinality({i \in 1..Len(s) : s[i] = v})
 IndexValues(n) == {ToString(i - 1) : i \in 1..n}
 EnumWhy(files, e) ==
     IF ~HasEnum(files, e.dart) THEN "no Dart enum for " \o e.dart
@@ -57,7 +58,9 @@ EnumWhy(files, e) ==
          IF Len(d.names) # Len(e.values) THEN "enum " \o e.dart \o " does not list exactly the exported constants"
          ELSE IF ~NoDup(d.names) THEN "enum " \o e.dart \o " lists a member twice"
          ELSE IF d.mode = "table" THEN
-                IF Range(d.values) # Range(e.values) \/ Len(d.values) # Len(d.names) \/ ~NoDup(d.values) THEN "value table of enum " \o e.dart \o " does not make member <-> value conversion the identity"
+                \* one table entry per member, holding the values of the exported constants with their multiplicities
+                \* (two constants may share a value: both members are written as that value, which is read back as the first)
+                IF Len(d.values) # Len(d.names) \/ Len(d.values) # Len(e.values) \/ \E v \in Range(e.values) \cup Range(d.values) : Count(d.values, v) # Count(e.values, v) THEN "value table of enum " \o e.dart \o " does not make member <-> value conversion the identity"
                 ELSE ""
          ELSE IF d.mode = "index" THEN
                 IF ~e.ints \/ Range(e.values) # IndexValues(Len(e.values)) \/ ~NoDup(e.values) THEN "enum " \o e.dart \o " converts by position although its exported values are not 0,1,2,..."
